@@ -29,7 +29,8 @@ EXPLANATION = ("Theorems: the executable reference checker is sound — if story
                "Oracle on the real compiler: terminates without panic within the time limit, names only existing "
                "lines, same bytes in two processes, output loads, every reference resolves exactly.")
 
-SOUP = ["\"日本語\" + x", "{\"é\"}", "->", "<-", "->->", "==", "===", "=", "*", "+", "-", "~", "{", "}", "[", "]", "(", ")", "|", "&", "!", ":", "#",
+SOUP = ["->-> k(", "-> k)( ->", "-> k(", "<- k(1", "f(", "))", "((", "-> nowhere", "{TURNS_SINCE(-> nowhere)}", "~ temp t = -> nowhere",
+        "\"日本語\" + x", "{\"é\"}", "->", "<-", "->->", "==", "===", "=", "*", "+", "-", "~", "{", "}", "[", "]", "(", ")", "|", "&", "!", ":", "#",
         "<>", "//", "/*", "*/", "\\", "\"", ",", ".", "VAR", "CONST", "LIST", "EXTERNAL", "INCLUDE", "function", "temp",
         "return", "not", "and", "or", "mod", "has", "hasnt", "else", "DONE", "END", "true", "false", "x", "y", "knot", "f",
         "1", "0", "2.5", "\n", "\n", "\n", "  ", "\t", "stopping", "cycle", "shuffle", "once", "TURNS_SINCE", "CHOICE_COUNT",
